@@ -81,6 +81,49 @@ def verify_function(uni, contract, max_paths=4000):
     return rep
 
 
+def _raise_only(s):
+    """statement that can only raise or fall through: no assignment, no
+    return/break/continue, no expression statement other than a docstring"""
+    import ast
+    if isinstance(s, (ast.Raise, ast.Pass)):
+        return True
+    if isinstance(s, ast.Expr):
+        return isinstance(s.value, ast.Constant)
+    if isinstance(s, ast.If):
+        return all(_raise_only(x) for x in s.body + s.orelse)
+    if isinstance(s, ast.For):
+        return all(_raise_only(x) for x in s.body + s.orelse)
+    return False
+
+
+def slice_guards(uni, c, fn, keep):
+    """MECHANICAL SLICE for ensures-on-normal-return obligations: top-level
+    `if` / `for` statements whose bodies can only raise (guards) are dropped
+    unless their source text contains one of the `keep` strings.  Dropping a
+    guard can only ADD normal-return paths, so a postcondition proved for
+    the slice on every normal return holds for the real function on every
+    normal return - provided the guard conditions have no side effect (they
+    are property reads and pure queries here; stated as an assumption).
+    Exception-related obligations (raises / noexc) are NOT meaningful for a
+    sliced function and must not be stated in such a contract."""
+    import ast
+    out, dropped = [], []
+    for s in fn.body:
+        if isinstance(s, (ast.If, ast.For)) and _raise_only(s):
+            src = ast.unparse(s)
+            if not any(k in src for k in keep):
+                dropped.append(s.lineno)
+                continue
+        out.append(s)
+    uni.note_assumption(
+        f"{c.name}: verified on a mechanical slice of the real body - "
+        f"{len(dropped)} top-level guard statements that can only raise "
+        f"(at lines {dropped}) are dropped; their conditions are assumed "
+        "free of side effects; only postconditions on normal return are "
+        "claimed for this function")
+    return out
+
+
 def run_path(uni, it, c, fn, info, key, rep):
     st = State()
     st.heap_sorts = {}
@@ -123,8 +166,12 @@ def run_path(uni, it, c, fn, info, key, rep):
     it.entry_frame, it.entry_state = pre, fr.old
     it.entry_z3 = {n: v.e for n, v in entry_env.items() if hasattr(v, "e")}
     outcome, value = "return", NONE
+    body = fn.body
+    keep = getattr(c, "keep_guards", None)
+    if keep is not None:
+        body = slice_guards(uni, c, fn, keep)
     try:
-        it.exec_block(fn.body, st, fr)
+        it.exec_block(body, st, fr)
     except _Return as ret:
         value = ret.value
     except PyRaise as pr:
